@@ -120,6 +120,8 @@ def _r9_cli(run):
     for dest, label, getter in want:
         got = getter()
         exp = ("attr", S, dest)
+        if got is not None and got[0] == "call" and got[1] == ("sym", "getattr") and len(got[2]) in (2, 3) and got[2][0] == S and got[2][1] == ("const", dest):
+            got = exp            # getattr(settings, "<dest>"[, default]): the option itself (the default only covers other subcommands)
         if got == exp:
             run.holds("C02.R9", impl, calls[0].node, "%s reaches the cascade as settings.%s" % (label, dest), option=dest)
         elif got is not None and exp in _atoms(got):
